@@ -24,6 +24,7 @@ fn opts(tier: Tier) -> GenOpts {
         strata: [8, 1, 1, 2],
         precedence: true,
         avoid_insert: false,
+        pad_tokens: false,
     }
 }
 
